@@ -164,26 +164,54 @@ def r2_flag_transfer(a, tier):
         'the only runtime readers of is_lrec',
         floor=6,
     )
+    import contextlib
+    import itertools
+
+    from ..minieval import Obj, Unsupported
+    from ..modelinterp import Hook, ModelInterp, Recorder, Stub
+    # Rule.ruleinfo and walk_Rule interpreted on stand-in rules for every combination of the analysis flags
     ri = a.p.func('tatsu.peg.base.Rule.ruleinfo')
-    kw = {}
-    for n in walk_no_defs(ri.node):
-        if isinstance(n, ast.Call) and dotted(n.func) == 'RuleInfo':
-            kw = {k.arg: norm(k.value) for k in n.keywords}
-    for fld, want in (('is_lrec', 'self.is_lrec'), ('is_memo', 'self.memoizable')):
-        ok = kw.get(fld) == want
-        rep.add({'RuleInfo': fld, 'from': kw.get(fld), 'ok': ok})
-        if not ok:
-            rep.fail(ri.qualname, f'ruleinfo:{fld}', f'Rule.ruleinfo passes {fld}={kw.get(fld)}, expected {want}', ri.loc)
     wr = a.p.func('tatsu.ngcodegen.ngparser_gen.PythonParserGenerator.walk_Rule')
-    emits = {}
-    for n in walk_no_defs(wr.node):
-        if isinstance(n, ast.IfExp) and isinstance(n.body, ast.Constant) and isinstance(n.body.value, str) and '@tatsu.' in n.body.value:
-            emits[n.body.value.strip()] = norm(n.test)
-    for dec, want in (('@tatsu.leftrec', 'rule.is_lrec'), ('@tatsu.nomemo', 'not rule.memoizable')):
-        ok = emits.get(dec) == want
-        rep.add({'walk_Rule_emits': dec, 'iff': emits.get(dec), 'ok': ok})
+    for lrec, memoizable, no_memo in itertools.product((False, True), repeat=3):
+        if memoizable and no_memo:
+            continue  # memoizable implies not no_memo (C16/C04 rules decide Rule.memoizable itself)
+        exp = Stub('tatsu.peg.basic.Void', _parse=Hook(lambda *_a: None))
+        rule = Stub('tatsu.peg.base.Rule', name='r', exp=exp, params=(), kwparams={}, is_lrec=lrec, memoizable=memoizable,
+                    no_memo=no_memo, no_stak=False, is_name=False, is_tokn=False, _parse=Hook(lambda *_a: None))
+        got = {}
+
+        def mkri(**kw):
+            got.update(kw)
+            return Obj(**kw)
+        it = ModelInterp(a, {'RuleInfo': Hook(mkri, bind=Hook(lambda r, *_a: r))})
+        try:
+            it.get_attr(rule, 'ruleinfo')
+        except Unsupported as e:
+            raise AnalysisError(f'cannot interpret Rule.ruleinfo: {e}') from e
+        ok = got.get('is_lrec') is lrec and got.get('is_memo') is memoizable
+        rep.add({'Rule.ruleinfo': {'is_lrec': lrec, 'memoizable': memoizable, 'no_memo': no_memo},
+                 'RuleInfo': {k: got.get(k) for k in ('is_lrec', 'is_memo', 'no_memo')}, 'ok': ok})
         if not ok:
-            rep.fail(wr.qualname, f'emit:{dec}', f'walk_Rule emits {dec} under `{emits.get(dec)}`, expected `{want}`', wr.loc)
+            rep.fail(ri.qualname, f'ruleinfo:{lrec}:{memoizable}:{no_memo}', f'a rule with is_lrec={lrec}, memoizable={memoizable}, '
+                     f'no_memo={no_memo} gets RuleInfo(is_lrec={got.get("is_lrec")}, is_memo={got.get("is_memo")}); required '
+                     f'is_lrec={lrec}, is_memo={memoizable}', ri.loc)
+        out = []
+        gen = Stub('tatsu.ngcodegen.ngparser_gen.PythonParserGenerator', ctx_stack=['ctx'], ctx='ctx',
+                   reset_counters=Hook(lambda: None), print=Hook(lambda *x, **_k: out.append(' '.join(str(y) for y in x))),
+                   indent=Hook(lambda *_a, **_k: contextlib.nullcontext()), walk=Hook(lambda *_a, **_k: ''))
+        it = ModelInterp(a, {'safe_name': Hook(lambda n, *_a: n)})
+        try:
+            it.call_fn(wr, [gen, rule])
+        except Unsupported as e:
+            raise AnalysisError(f'cannot interpret walk_Rule: {e}') from e
+        text = '\n'.join(out)
+        decs = {d: (d in text) for d in ('@tatsu.leftrec', '@tatsu.nomemo')}
+        ok = decs['@tatsu.leftrec'] is lrec and decs['@tatsu.nomemo'] is (not memoizable)
+        rep.add({'walk_Rule': {'is_lrec': lrec, 'memoizable': memoizable, 'no_memo': no_memo}, 'emits': decs, 'ok': ok})
+        if not ok:
+            rep.fail(wr.qualname, f'emit:{lrec}:{memoizable}:{no_memo}', f'for a rule with is_lrec={lrec}, memoizable={memoizable}, '
+                     f'no_memo={no_memo} walk_Rule emits {[d for d, v in decs.items() if v]}; required @tatsu.leftrec iff is_lrec and '
+                     f'@tatsu.nomemo iff not memoizable (the analysis result, not only the @nomemo written by the author)', wr.loc)
     lr = a.p.func('tatsu.contexts.decorator.basic.leftrec')
     sets = {norm(n.targets[0]).split('.')[-1]: norm(n.value) for n in walk_no_defs(lr.node) if isinstance(n, ast.Assign) and isinstance(n.targets[0], ast.Attribute)}
     ok = sets.get('is_lrec') == 'True' and sets.get('is_memo') == 'False'
@@ -195,11 +223,29 @@ def r2_flag_transfer(a, tier):
     if not exported:
         rep.fail('tatsu', 'export', 'tatsu does not export leftrec/nomemo used by generated parsers', '')
     call = a.p.func(f'{ENGINE}.call')
-    ok = False
-    for n in walk_no_defs(call.node):
-        if isinstance(n, ast.If) and norm(n.test) == f'{call.params[1]}.is_lrec':
-            ok = any(isinstance(x, ast.Call) and dotted(x.func) == 'self.recursive_call' for s in n.body for x in ast.walk(s)) and any(
-                isinstance(x, ast.Call) and dotted(x.func) == 'self.rule_call' for s in n.orelse for x in ast.walk(s))
+    # interpret call() on a stand-in engine for ri.is_lrec in {True, False}: which of recursive_call / rule_call runs
+    from ..minieval import Obj, Unsupported
+    from ..modelinterp import Hook, ModelInterp, Recorder, Stub
+    ok = True
+    for lrec in (True, False):
+        seen = []
+        res = Obj(newpos=0, node='n')
+
+        def mk(tag, seen=seen, res=res):
+            def h(*_a, **_k):
+                seen.append(tag)
+                return res
+            return Hook(h)
+        nop = Hook(lambda *_a, **_k: None)
+        me = Stub(ENGINE, pos=0, callstack=[], tracer=Recorder('tracer'), state=Recorder('state'), heartbeat=nop, next_token=nop,
+                  goto=nop, set_furthest_exception=nop, recursive_call=mk('recursive_call'), rule_call=mk('rule_call'))
+        ri = Stub('tatsu.contexts.infos.RuleInfo', is_lrec=lrec, should_trace=False, is_tokn=False, name='r')
+        it = ModelInterp(a, {'MemoKey': Hook(lambda *x: ('key', *x))})
+        try:
+            it.call_fn(call, [me, ri])
+        except Unsupported as e:
+            raise AnalysisError(f'cannot interpret {call.qualname}: {e}') from e
+        ok = ok and seen == (['recursive_call'] if lrec else ['rule_call'])
     rep.add({'call_dispatches_on_is_lrec': ok})
     if not ok:
         rep.fail(call.qualname, 'dispatch', 'call() does not dispatch to recursive_call iff ri.is_lrec (rule_call otherwise)', call.loc)
